@@ -197,6 +197,43 @@ def run(ctx, p):
             continue
         ctx.observe("api.container", name, same_records(sol, other), branch=label,
                     detail=dict(n=len(sol), names=list(sol.dtype.names)))
+    # ---- integer-valued positions: [0, 1, 2] and [0., 1., 2.] are the same points --------------------------------------
+    # (whatever the float request returns - values, NaN outside the domain - the integer request must return as well; a
+    #  request the solver refuses in both forms is skipped)
+    if cheap and rep % 3 != 1:
+        q = np.unique(np.round(a), axis=(1 if lay == "comp2" and a.ndim == 2 else 0)) if a.ndim == 2 else np.unique(np.round(a))
+        if a.ndim == 1 and len(q) < 3:
+            q = np.unique(np.concatenate([q, [np.floor(a.min()), np.ceil(a.max()), np.ceil(a.max()) + 1.0]]))
+        nq = q.shape[1] if (lay == "comp2" and q.ndim == 2) else len(q)
+        if nq >= max(1, e["minpts"]) and np.all(np.abs(q) < 2 ** 31):
+            try:
+                Fq = ctx.call(s, q.astype(float), t)
+            except SolverRaised:
+                Fq = None
+                ctx.count("integer_valued_request_refused_as_float:" + name)
+            if Fq is not None:
+                for label, qi in (("int64 ndarray", q.astype(np.int64)), ("list of int", q.astype(np.int64).tolist())):
+                    try:
+                        Iq = ctx.call(s, qi, t)
+                    except SolverRaised as ex:
+                        ctx.observe("api.container", name, False, branch="integer-valued positions as " + label, detail=dict(raised=str(ex)[:200], points=q.tolist()[:6], t=t))
+                        continue
+                    worst, wf = 0.0, None
+                    okn = len(Iq) == len(Fq) and Iq.dtype.names == Fq.dtype.names
+                    if okn:
+                        for f in Fq.dtype.names:
+                            if Fq[f].dtype.kind not in "fiu":
+                                continue
+                            x, y = np.asarray(Fq[f], float), np.asarray(Iq[f], float)
+                            sc = np.maximum(np.abs(x), np.abs(y))
+                            with np.errstate(all="ignore"):
+                                dd = np.abs(x - y) / np.where((sc > 0) & np.isfinite(sc), sc, 1.0)
+                            dd = np.where((x == y) | (np.isnan(x) & np.isnan(y)), 0.0, dd)      # equal infinities included
+                            dd = np.where(np.isnan(dd), np.inf, dd)
+                            if dd.size and float(dd.max()) > worst:
+                                worst, wf = float(dd.max()), f
+                    ctx.observe("api.container", name, okn and worst <= 1e-12, branch="integer-valued positions as " + label, measure=worst, tol=1e-12,
+                                detail=dict(field=wf, points=q.tolist()[:6], t=t, params={k: v for k, v in d["passed"].items() if isinstance(v, (int, float, str))}))
     # ---- order: permutation and duplicates (not for solvers whose grid is the point set) ---------------
     m = len(sol)
     if not e["grid"] and m >= 2 and cheap:
